@@ -157,7 +157,15 @@ def run_check(pid, tier, seed):
     obs = all_obs + lemma_obs
     failed = [o for o in obs if obligation_failed(o)]
     undec = [o for o in obs if obligation_undecided(o)]
-    cover_refuted = [o for o in all_covers if obligation_failed(o)]
+    # vacuity: the precondition cover must not be refuted, and per function at least one exit path must be reachable
+    cover_refuted = [o for o in all_covers if o.kind == "cover" and obligation_failed(o)]
+    by_fn = {}
+    for o in all_covers:
+        if o.kind == "canary":
+            by_fn.setdefault(o.func, []).append(o)
+    for fn_, cs in by_fn.items():
+        if cs and all(obligation_failed(o) for o in cs):
+            cover_refuted.append(cs[0])
     nres = native.get("results", {})
     native_fail = {k: v for k, v in nres.items() if v.get("failures")}
     native_err = {k: v for k, v in nres.items() if v.get("status") in ("error",) or (v.get("status") == "no-harness")}
